@@ -23,10 +23,21 @@ func guarded(f func() error) error {
 	select {
 	case err := <-done:
 		return err
-	case <-time.After(20 * time.Second):
-		return fmt.Errorf("HANG: no result after 20s")
+	case <-time.After(30 * time.Second):
+	}
+	// Slow, or starved by machine load: keep waiting for the same call for a
+	// long time before calling it a hang.
+	slowCalls++
+	select {
+	case err := <-done:
+		return err
+	case <-time.After(10 * time.Minute):
+		return fmt.Errorf("HANG: no result after 10m30s")
 	}
 }
+
+// slowCalls counts guarded calls that needed more than 30 s (reported in the result notes).
+var slowCalls int
 
 func parseFresh(text string) (v zed.Value, zctx *zed.Context, err error) {
 	zctx = zed.NewContext()
@@ -400,13 +411,21 @@ func checkStream(res *Result, zctx *zed.Context, vals []zed.Value, singleOK []bo
 	{
 		names := map[string]zed.Type{}
 		ts := trigSet{}
+		within := false
 		for _, v := range vals {
 			typeTriggers(v.Type(), ts, names)
 			if !v.IsNull() {
 				bodyTriggers(zctx, v.Type(), v.Bytes(), ts, false, names)
 			}
+			// one value whose own type binds a name to two different types
+			if triggersOf(zctx, v)["name-redefined"] {
+				within = true
+			}
 		}
 		var cl []string
+		if within {
+			cl = append(cl, "name-bound-twice-within-a-type")
+		}
 		if ts["name-redefined"] {
 			cl = append(cl, "name-redefined-across-values")
 		}
